@@ -29,6 +29,9 @@ type Program struct {
 	KeyOf   map[*ssa.Function]string
 	AllPkgs map[string]*types.Package // by short name (for spec type lookup)
 	RepoFns []*ssa.Function
+	// NonNilGlobals: package-level variables initialised once (in init) with a
+	// value known to be non-nil (errors.New / fmt.Errorf / &T{} / make) and never stored to again.
+	NonNilGlobals map[*ssa.Global]bool
 }
 
 // pkgShort gives the short package name used in contract keys.
@@ -157,6 +160,48 @@ func loadProgram(dir string) (*Program, error) {
 		P.RepoFns = append(P.RepoFns, fn)
 	}
 	sort.Slice(P.RepoFns, func(i, j int) bool { return P.KeyOf[P.RepoFns[i]] < P.KeyOf[P.RepoFns[j]] })
+	P.NonNilGlobals = map[*ssa.Global]bool{}
+	stores := map[*ssa.Global]int{}
+	for fn := range ssautil.AllFunctions(prog) {
+		for _, b := range fn.Blocks {
+			for _, in := range b.Instrs {
+				st, ok := in.(*ssa.Store)
+				if !ok {
+					continue
+				}
+				gl, ok := st.Addr.(*ssa.Global)
+				if !ok {
+					continue
+				}
+				stores[gl]++
+				if fn.Name() != "init" {
+					stores[gl] += 100
+					continue
+				}
+				switch v := st.Val.(type) {
+				case *ssa.Call:
+					if cal := v.Call.StaticCallee(); cal != nil {
+						switch cal.String() {
+						case "errors.New", "fmt.Errorf":
+							P.NonNilGlobals[gl] = true
+						}
+					}
+				case *ssa.Alloc, *ssa.MakeMap, *ssa.MakeInterface:
+					if mi, ok := v.(*ssa.MakeInterface); ok {
+						if _, isAlloc := mi.X.(*ssa.Alloc); !isAlloc {
+							break
+						}
+					}
+					P.NonNilGlobals[gl] = true
+				}
+			}
+		}
+	}
+	for gl := range P.NonNilGlobals {
+		if stores[gl] != 1 {
+			delete(P.NonNilGlobals, gl)
+		}
+	}
 	return P, nil
 }
 
